@@ -24,7 +24,11 @@
 (* c (configuration record, from the harness together with the DUT):       *)
 (*   kind, dw, hl (header length in bytes), swap (swap_field_bytes),       *)
 (*   fields = << [byte, offset, width], ... >> (sorted by field name, the  *)
-(*   order of the header's layout), minlen, maxlen (payload beats per      *)
+(*   order of the header's layout; a header field named <p>_lsb / <p>_msb  *)
+(*   of width w is, by the definition of Header.get_field, bits [0, w) /   *)
+(*   [w, 2w) of the endpoint's param <p>: the harness presents the two     *)
+(*   halves of that param as the two field values, so the clauses below    *)
+(*   cover the split unchanged), minlen, maxlen (payload beats per         *)
 (*   packet), bubbles (1: the producer may pause inside a packet; 2: it    *)
 (*   may pause but keeps the payload of the beat accepted last on the bus, *)
 (*   last = 0, as the generator of the repository test does),              *)
